@@ -24,6 +24,7 @@ class _State:
         self.force_sites = frozenset()
         self.alts = []                 # collected in the generic run
         self.seen_sites = set()
+        self.zero_sites = set()        # sites whose other outcome is realised by a consistent zero specialisation
         self.decisions = 0
         self.label = ""
 
@@ -119,8 +120,9 @@ def _atoms_if_plain(elems):
             if s is None or s[2] <= 0:
                 return None
             a = s[1]
-            if isinstance(a, tuple) and a and a[0] in COMPUTED_TAGS:
-                return None          # a derived quantity cannot be made zero by specialising inputs
+            if isinstance(a, tuple) and a and (a[0] in COMPUTED_TAGS or a[0] in ("lapack", "uninit", "hv", "cfg")
+                                               or (isinstance(a[0], str) and a[0].startswith("rnd"))):
+                return None          # a derived quantity (norm, LAPACK output, random draw ...) cannot be made zero by specialising inputs
             out.add(a)
     return frozenset(out)
 
@@ -181,6 +183,7 @@ def default_choice(interp, node, cond):
             # a consistent input specialisation realises the other outcome: analyse that (never the bare forced branch, which
             # would pair the special-case code path with generic, i.e. contradictory, data)
             key = ("zero", zeros)
+            SCEN.zero_sites.add(site)
             if key not in SCEN.alts:
                 SCEN.alts.append(key)
         elif site not in SCEN.seen_sites:
